@@ -186,6 +186,69 @@ def replay(path):
     return 1 if chk.violations else 0
 
 
+def extra_determinism(chk, seed):
+    """(1) The same seeded operation on the SAME live object: after set_random_seed(s) an operation gives what
+    it gave the first time (same seed, same parameters) and what a never-used copy of the model gives - nothing
+    remembered from earlier calls may enter.  (2) Separate interpreter runs with different PYTHONHASHSEED
+    (the interpreter's own per-process random source) give bit-identical seeded results."""
+    import copy
+    import os
+    import subprocess
+    import sys
+    import torch
+    import numpy as np
+    import lifecycle_ops as LO
+    qc = LO.qucumber
+    from qucumber.observables import SigmaZ, SigmaX, NeighbourInteraction, System
+
+    def tok(x):
+        return common.sha(LO.to_bytes(x))
+    ops = [("sample(k=2,n=5)", lambda st: st.sample(k=2, num_samples=5)),
+           ("sample(k=0,n=5)", lambda st: st.sample(k=0, num_samples=5)),
+           ("sample(k=1,n=5) again", lambda st: st.sample(k=1, num_samples=5)),
+           ("SigmaX.sample", lambda st: SigmaX().sample(st, 2, num_samples=5)),
+           ("statistics(12, chains=4)", lambda st: SigmaZ().statistics(st, 12, num_chains=4, burn_in=2, steps=1)),
+           ("System.statistics", lambda st: System(SigmaZ(), NeighbourInteraction(c=1)).statistics(st, 8, num_chains=4, burn_in=1))]
+    for typ in ("positive", "complex", "density"):
+        qc.set_random_seed(seed + 11, cpu=True, gpu=False, quiet=True)
+        st = LO.make_state(typ, 3, 2, 2)
+        fresh = copy.deepcopy(st)                       # identical parameters, never used
+        for name, op in ops:
+            res = []
+            for obj in (st, st, copy.deepcopy(fresh)):
+                qc.set_random_seed(seed + 5, cpu=True, gpu=False, quiet=True)
+                res.append(tok(op(obj)))
+            chk.evaluations += 1
+            if res[0] != res[1]:
+                chk.violation("reseed:same-object:" + typ, dict(op=name, why="after re-seeding with the same seed the same "
+                              "operation on the same model gave another result", tokens=res))
+            if res[0] != res[2]:
+                chk.violation("reseed:used-vs-unused-model:" + typ, dict(op=name, why="a model that was sampled from before and a "
+                              "never-used copy with identical parameters give different seeded results", tokens=res))
+        chk.nontriv(("reseed", typ))
+    child = os.path.join(os.path.dirname(os.path.abspath(__file__)), "c14_child.py")
+    outs = {}
+    for hs in ("1", "2", "3"):
+        env = dict(os.environ, PYTHONHASHSEED=hs)
+        p = subprocess.run([sys.executable, "-B", child, str(seed % 100000)], env=env, stdout=subprocess.PIPE,
+                           stderr=subprocess.PIPE, text=True, timeout=600)
+        if p.returncode != 0:
+            raise common.MachineryError("c14_child failed: " + p.stderr[-1500:])
+        outs[hs] = [l.split()[1:] for l in p.stdout.splitlines() if l.startswith("RESULT")]
+    base = outs["1"]
+    if len(base) < 10:
+        raise common.MachineryError("c14_child printed too little")
+    for hs in ("2", "3"):
+        for a, b in zip(base, outs[hs]):
+            chk.evaluations += 1
+            if a != b:
+                chk.violation("cross-process:hash-seed-dependent:%s:%s" % (a[0], a[1]),
+                              dict(why="the same seeded session gives different bits in interpreters that differ only in "
+                                       "PYTHONHASHSEED", run1=a, other=b, hashseed=hs))
+    chk.nontriv("cross-process")
+    chk.extra["cross_process_runs"] = 3
+
+
 def run(tier, seed):
     chk = common.Check(PID, tier, seed)
     rng = random.Random(seed)
@@ -357,4 +420,5 @@ def run(tier, seed):
                         "a different seed is required to differ only for freshly drawn parameters, the generator "
                         "state and samples of >= 64 rows drawn from a fresh initial state",
                         "results are compared as hashes of their bytes (tensors, floats, dict of floats)"]
+    extra_determinism(chk, seed)
     return chk.finish()
